@@ -433,6 +433,7 @@ func (c *Ctx) revisionChoice() {
 	}
 	c.Floor("C08.3-create-sites", nCreate, 1)
 	c.Floor("C08.3-rollback-sites", nUpdate, 1)
+	c.updateRevisionSources(fi, fn, an, cr, ur, revs)
 	// unchanged template: some path assigns the update revision without any write
 	for _, s := range c.G.Sites {
 		if s.Fn == fi.Obj && s.Class == "write" {
@@ -524,4 +525,65 @@ func (c *Ctx) createLoop() {
 		return true
 	})
 	c.Check(inc, "C08.4-collision-counter", "createControllerRevision: *collisionCount++", fi.Decl.Pos(), "a different existing revision bumps the collision counter before the retry", "a name collision with a different revision does not change the name on retry")
+}
+
+// updateRevisionSources: the variable returned as the update revision only ever takes
+// (a) the candidate built by newRevision, (b) the result of createControllerRevision or
+// updateControllerRevision (both leave it numbered above all listed revisions), or
+// (c) the newest listed revision, revisions[len(revisions)-1]. An older equal revision
+// taken as it is would leave the update revision below the newest one.
+func (c *Ctx) updateRevisionSources(fi *load.FuncInfo, fn *gf.Fn, an *gf.Analysis, cr, ur *load.FuncInfo, revs *ast.Ident) {
+	info := fi.Pkg.TypesInfo
+	var final *ast.ReturnStmt
+	ast.Inspect(fi.Decl.Body, func(n ast.Node) bool {
+		if ret, ok := n.(*ast.ReturnStmt); ok && len(ret.Results) == 4 {
+			if _, isID := ret.Results[1].(*ast.Ident); isID && !isNilExpr(info, ret.Results[1]) {
+				final = ret
+			}
+		}
+		return true
+	})
+	if final == nil {
+		c.Fail("getStatefulSetRevisions: final return not found")
+		return
+	}
+	upd := info.ObjectOf(final.Results[1].(*ast.Ident))
+	n := 0
+	ast.Inspect(fi.Decl.Body, func(x ast.Node) bool {
+		as, ok := x.(*ast.AssignStmt)
+		if !ok {
+			return true
+		}
+		for i, l := range as.Lhs {
+			id, ok := l.(*ast.Ident)
+			if !ok || info.ObjectOf(id) != upd {
+				continue
+			}
+			n++
+			var rhs ast.Expr
+			if len(as.Rhs) == len(as.Lhs) {
+				rhs = as.Rhs[i]
+			} else if len(as.Rhs) == 1 {
+				rhs = as.Rhs[0]
+			}
+			name := fmt.Sprintf("%s: %s = %s", fi.Obj.Name(), upd.Name(), clip(types.ExprString(rhs), 60))
+			if call, ok := ast.Unparen(rhs).(*ast.CallExpr); ok {
+				f := gf.StaticCallee(info, call)
+				if f != nil && (f.Origin() == cr.Obj || f.Origin() == ur.Obj || calleeShort(info, call) == "newRevision") && i == 0 {
+					c.OK("C08.3-update-revision-source", name, as.Pos(), "candidate, or the result of the create / renumber helper")
+					continue
+				}
+			}
+			// otherwise: the newest listed revision
+			newest := c.WantTerm(fn, as.Pos(), "$1[len($1)-1]", revs)
+			good := false
+			if newest != nil {
+				good, _ = an.StateAfter(as).Implies(gf.FEq(gf.Var(upd), newest))
+			}
+			c.Check(good, "C08.3-update-revision-source", name, as.Pos(), "the newest listed revision (revisions[len(revisions)-1])",
+				"the update revision is set to a listed revision that is not proven to be the newest one, without renumbering it: the update revision can end up below the newest revision")
+		}
+		return true
+	})
+	c.Floor("C08.3-update-revision-assignments-in-choice", n, 4)
 }
